@@ -72,7 +72,12 @@ func putForGrammar(b *gram.Built) *put {
 		var err error
 		switch entry {
 		case "bytes":
-			ast, err = b.P.ParseBytes(filename, in, opts...)
+			// the buffer is the caller's: it is reused as soon as the call has returned
+			buf := append([]byte(nil), in...)
+			ast, err = b.P.ParseBytes(filename, buf, opts...)
+			for i := range buf {
+				buf[i] = '#'
+			}
 		case "namedreader":
 			ast, err = b.P.Parse(filename, fixtures.NamedReader{Reader: bytes.NewReader(in)}, opts...)
 		case "dataerr":
@@ -105,7 +110,11 @@ func putForRules(rs *lexgen.RuleSet) (*put, string) {
 		var err error
 		switch entry {
 		case "bytes":
-			ast, err = p.ParseBytes(filename, in, opts...)
+			buf := append([]byte(nil), in...)
+			ast, err = p.ParseBytes(filename, buf, opts...)
+			for i := range buf {
+				buf[i] = '#'
+			}
 		case "namedreader":
 			ast, err = p.Parse(filename, fixtures.NamedReader{Reader: bytes.NewReader(in)}, opts...)
 		case "reader", "slowreader":
